@@ -29,25 +29,31 @@ def _scen(name, scripts, dev_bound=0, weight=1, **over):
 def scenarios(tier):
     s5 = ('send', hexn(5))
     s1 = ('send', hexn(1, 0xb0))
+    s1b = ('send', hexn(1, 0xb8))
     s3 = ('send', hexn(3, 0xc0))
     term = ('terminate', 0)
     close = ('close',)
     out = []
-    out.append(_scen('termA-idle', {'A': [term], 'B': []}, dev_bound=1, weight=5))
-    out.append(_scen('termB-idle', {'A': [], 'B': [term]}, dev_bound=1, weight=5))
-    out.append(_scen('termA|termB', {'A': [term], 'B': [term]}, dev_bound=1, weight=10))
-    out.append(_scen('A5+termA', {'A': [s5, term], 'B': []}, dev_bound=0, weight=20))
-    out.append(_scen('A5|termB', {'A': [s5], 'B': [term]}, dev_bound=0, weight=20))
-    out.append(_scen('A1+A1+termA', {'A': [s1, s1, term], 'B': []}, dev_bound=0, weight=30))
-    out.append(_scen('A3+termA|B1', {'A': [s3, term], 'B': [s1]}, dev_bound=0, weight=40))
-    out.append(_scen('closeA-anywhere', {'A': [s5, close], 'B': []}, dev_bound=0, weight=20))
-    out.append(_scen('closeB-anywhere', {'A': [s5], 'B': [close]}, dev_bound=0, weight=20))
+    out.append(_scen('termA-idle-d1', {'A': [term], 'B': []}, dev_bound=1, weight=5))
+    out.append(_scen('termB-idle-d1', {'A': [], 'B': [term]}, dev_bound=1, weight=5))
+    out.append(_scen('termA|termB-d1', {'A': [term], 'B': [term]}, dev_bound=1, weight=10))
+    out.append(_scen('A5+termA', {'A': [s5, term], 'B': []}, dev_bound=0, weight=30))
+    out.append(_scen('A5|termB', {'A': [s5], 'B': [term]}, dev_bound=0, weight=30))
+    out.append(_scen('A1+termA-d1', {'A': [s1, term], 'B': []}, dev_bound=1, weight=40))
+    out.append(_scen('A1|termB-d1', {'A': [s1], 'B': [term]}, dev_bound=1, weight=40))
+    out.append(_scen('A1+A1+termA', {'A': [s1, s1b, term], 'B': []}, dev_bound=0, weight=30))
+    out.append(_scen('A1+termA|B1', {'A': [s1, term], 'B': [s1b]}, dev_bound=0, weight=40))
+    out.append(_scen('A1+termA|termB', {'A': [s1, term], 'B': [term]}, dev_bound=0, weight=30))
+    out.append(_scen('closeA-anywhere-d1', {'A': [s5, close], 'B': []}, dev_bound=1, weight=30))
+    out.append(_scen('closeB-anywhere-d1', {'A': [s5], 'B': [close]}, dev_bound=1, weight=30))
     if tier == 'thorough':
         out.append(_scen('A5+termA-d1', {'A': [s5, term], 'B': []}, dev_bound=1, weight=60))
         out.append(_scen('A5|termB-d1', {'A': [s5], 'B': [term]}, dev_bound=1, weight=60))
+        out.append(_scen('A3+termA|B1', {'A': [s3, term], 'B': [s1]}, dev_bound=0, weight=100))
         out.append(_scen('A5+termA|B3+termB', {'A': [s5, term], 'B': [s3, term]}, dev_bound=0, weight=100))
         out.append(_scen('A5+A1+termA', {'A': [s5, s1, term], 'B': []}, dev_bound=0, weight=60))
         out.append(_scen('termA|termB-d2', {'A': [term], 'B': [term]}, dev_bound=2, weight=30))
+        out.append(_scen('closeA|closeB', {'A': [s1, close], 'B': [close]}, dev_bound=0, weight=30))
     return out
 
 
